@@ -71,6 +71,7 @@ async def open_ws_server_transport(spec: str) -> Transport:
                 f'from {connection.remote_address}'
             )
             self.connection = connection
+            self.source.parser.reset()
             # pylint: disable=no-member
             try:
                 async for packet in connection:
